@@ -130,6 +130,10 @@ class CanSignal:
             self.scalar_type = type_map[
                 ("i" if self.signed else "u") + str(ceil_to_power_of_2(self.bit_length))
             ]
+            # A short integer (u5, i12...) is stored in its scalar C type; only user
+            # defined types (enums) keep their own name.
+            if self.data_type[:1] in ("i", "u") and self.data_type[1:].isdigit():
+                self.data_type = self.scalar_type
         else:
             self.scalar_type = self.data_type
 
